@@ -20,6 +20,8 @@
 //!   strm <fab>                                           => ok                FabricPersist::remove(fab)
 //!   load                                                 => ok|Err            Fabrics::load_persist
 //!   reload <fab>                                         => ok|Err            the fabric part of the fail-safe roll-back (hook verif_add_load)
+//!   faba <subject>                                       => <idx>|Err         Fabrics::add(.., case_admin_subject) with real certificates
+//!   wipe                                                 => ok|Err            Fabrics::reset_persist
 //!   dump                                                 => canonical text of the whole fabric table
 //!   sq <c|p|g|x> <sfab> <peer|-> <c1,c2,c3> <gid> <aux> <ep|*> <cl|*> <leaf|*> <opbits> <perms|none> <dts|->
 //!                                                        => allow|deny <fab> <mode> <subjects>    Accessor::for_session on a real Session
@@ -36,6 +38,9 @@ use rs_matter::acl::{AccessReq, Accessor, AclEntry, AuthMode, Target, MAX_ACL_EN
 use rs_matter::dm::clusters::acl::{
     AccessControlEntryAuthModeEnum, AccessControlEntryPrivilegeEnum, AccessControlEntryStruct, AclHandler,
 };
+use rs_matter::cert::gen::{CertGenerator, CertType, IssuerDN, SubjectDN, Validity};
+use rs_matter::cert::MAX_CERT_TLV_AND_ASN1_LEN;
+use rs_matter::crypto::{test_only_crypto, CanonPkcPublicKey, CanonPkcSecretKey, Crypto, PublicKey, SecretKey, SigningSecretKey};
 use rs_matter::dm::{Access, ArrayAttributeWrite, Dataver, DeviceType, Privilege};
 use rs_matter::error::{Error, ErrorCode};
 use rs_matter::fabric::{FabricPersist, GROUP_ENDPOINTS_PER_FABRIC, MAX_FABRICS, MAX_GROUPS_PER_FABRIC};
@@ -338,6 +343,46 @@ fn guarded(f: impl FnOnce() -> String) -> String {
     }
 }
 
+/// a root certificate, a node certificate issued under it and the node's key, made once per run:
+/// what `Fabrics::add` (AddNOC) needs to create a fabric with its Administer entry
+struct Certs {
+    rcac: Vec<u8>,
+    noc: Vec<u8>,
+    node_key: CanonPkcSecretKey,
+}
+
+thread_local! {
+    static CERTS: RefCell<Option<std::rc::Rc<Certs>>> = RefCell::new(None);
+}
+
+fn certs() -> std::rc::Rc<Certs> {
+    CERTS.with(|c| {
+        if c.borrow().is_none() {
+            let crypto = test_only_crypto();
+            let validity = Validity { not_before: 1, not_after: 0 };
+            let ca_sk = crypto.generate_secret_key().unwrap();
+            let mut ca_pub = CanonPkcPublicKey::new();
+            ca_sk.pub_key().unwrap().write_canon(&mut ca_pub).unwrap();
+            let mut buf = [0u8; MAX_CERT_TLV_AND_ASN1_LEN];
+            let len = CertGenerator::new(&mut buf)
+                .generate(&crypto, CertType::Rcac, &[1], validity.clone(), SubjectDN::verif_new(None, None, &[], Some(1)), IssuerDN::verif_new(None, None, false), ca_pub.reference(), None, &ca_sk)
+                .unwrap();
+            let rcac = buf[..len].to_vec();
+            let node_sk = crypto.generate_secret_key().unwrap();
+            let mut node_pub = CanonPkcPublicKey::new();
+            node_sk.pub_key().unwrap().write_canon(&mut node_pub).unwrap();
+            let mut node_key = CanonPkcSecretKey::new();
+            node_sk.write_canon(&mut node_key).unwrap();
+            let len = CertGenerator::new(&mut buf)
+                .generate(&crypto, CertType::Noc, &[0x41, 1], validity, SubjectDN::verif_new(Some(0x77), Some(0x99), &[], None), IssuerDN::verif_new(Some(1), None, true), node_pub.reference(), Some(ca_pub.reference()), &ca_sk)
+                .unwrap();
+            let noc = buf[..len].to_vec();
+            *c.borrow_mut() = Some(std::rc::Rc::new(Certs { rcac, noc, node_key }));
+        }
+        c.borrow().as_ref().unwrap().clone()
+    })
+}
+
 pub(crate) fn run_op(matter: &Matter<'_>, w: &[&str], out: &mut Out) -> Option<String> {
     let r = match w {
         ["enums", v, p, o, m, a, pp, cc, gg] => {
@@ -359,6 +404,21 @@ pub(crate) fn run_op(matter: &Matter<'_>, w: &[&str], out: &mut Out) -> Option<S
             }
         }
         ["dump"] => dump(matter),
+        ["faba", subject] => {
+            let Ok(subject) = subject.parse::<u64>() else { return Some("badop".into()) };
+            let c = certs();
+            guarded(|| {
+                let crypto = test_only_crypto();
+                matter.with_state(|state| match state.fabrics.add(&crypto, c.node_key.reference(), &c.rcac, &c.noc, &[], None, 0xFFF1, subject) {
+                    Ok(f) => f.fab_idx().get().to_string(),
+                    Err(e) => err_name(&e),
+                })
+            })
+        }
+        ["wipe"] => guarded(|| {
+            let mut buf = vec![0u8; KV_BUF];
+            matter.with_state(|state| res_unit(state.fabrics.reset_persist(&mut MemKv, &mut buf)))
+        }),
         ["aclu", fab, idx, pb, mode, subjects, targets] => {
             let (Some(fab), Some(mode), Ok(idx), Ok(pb)) = (fab_of(fab), mode_of(mode), idx.parse::<usize>(), pb.parse::<u8>()) else { return Some("badop".into()) };
             let mut e = AclEntry::new(None, Privilege::from_bits_retain(pb), mode);
@@ -728,7 +788,7 @@ pub(crate) fn gen_hist_case(matter: &Matter<'_>, r: &mut Rng, out: &mut Out, id:
     let steps = if thorough { r.range(10, 60) } else { r.range(8, 36) };
     let mut allow = false;
     let mut deny = false;
-    let mut emit = |matter: &Matter<'_>, out: &mut Out, op: String, allow: &mut bool, deny: &mut bool| {
+    let emit = |matter: &Matter<'_>, out: &mut Out, op: String, allow: &mut bool, deny: &mut bool| {
         let (o, q) = super::run_op(matter, &op, out);
         out.op(&op, &o);
         if let Some(q) = q {
@@ -750,7 +810,14 @@ pub(crate) fn gen_hist_case(matter: &Matter<'_>, r: &mut Rng, out: &mut Out, id:
                 *r.pick(&[1u8, 2, 3, 7, 200, 255])
             }
         };
-        let fab = pick_fab(r);
+        let mut fab = pick_fab(r);
+        let sel = r.below(100);
+        // operations that address an entry by index: mostly on a fabric that has entries
+        let by_index = (16..20).contains(&sel) || (30..40).contains(&sel) || (54..60).contains(&sel);
+        let with_acl: Vec<u8> = snap.iter().filter(|f| !f.entries.is_empty()).map(|f| f.idx).collect();
+        if by_index && !with_acl.is_empty() && r.chance(5, 6) {
+            fab = *r.pick(&with_acl);
+        }
         let nacl = snap.iter().find(|f| f.idx == fab).map(|f| f.entries.len()).unwrap_or(0);
         let pick_idx = |r: &mut Rng| -> usize {
             if nacl > 0 && r.chance(5, 6) { r.below(nacl as u64) as usize } else { nacl + r.below(2) as usize }
@@ -766,10 +833,14 @@ pub(crate) fn gen_hist_case(matter: &Matter<'_>, r: &mut Rng, out: &mut Out, id:
                 _ => r.pick(&[1u8, 2, 3, 9]).to_string(),
             }
         };
-        let sel = r.below(100);
         let op: String = if snap.is_empty() || sel < 8 {
-            out.stat("hist_op_fab", 1);
-            "fab".into()
+            if r.chance(1, 2) {
+                out.stat("hist_op_fab_with_admin_entry", 1);
+                format!("faba {}", r.pick(&H_NODE_IDS))
+            } else {
+                out.stat("hist_op_fab", 1);
+                "fab".into()
+            }
         } else if sel < 11 {
             out.stat("hist_op_rmfab", 1);
             format!("rmfab {}", fab)
@@ -836,9 +907,12 @@ pub(crate) fn gen_hist_case(matter: &Matter<'_>, r: &mut Rng, out: &mut Out, id:
         } else if sel < 92 {
             out.stat("hist_op_store_remove", 1);
             format!("strm {}", if !stored.is_empty() && r.chance(3, 4) { *r.pick(&stored) } else { fab })
-        } else if sel < 96 {
+        } else if sel < 95 {
             out.stat("hist_op_load", 1);
             "load".into()
+        } else if sel < 96 && r.chance(1, 3) {
+            out.stat("hist_op_reset_persist", 1);
+            "wipe".into()
         } else {
             out.stat("hist_op_reload", 1);
             format!("reload {}", if !stored.is_empty() && r.chance(1, 2) { *r.pick(&stored) } else { fab })
@@ -889,7 +963,8 @@ pub(crate) fn gen_session_query(r: &mut Rng, fabs: &[GFab], missing: &[u8]) -> S
         return format!("sr {} {} {}", sfab, gid, r.pick(&H_ENDPOINTS));
     }
     let smode = *r.pick(&["c", "c", "c", "c", "g", "g", "p", "x"]);
-    let mut peer: Option<u64> = Some(*r.pick(&H_NODE_IDS));
+    // (a peer node id shaped like a tag: the certificate's node id is not range-checked)
+    let mut peer: Option<u64> = Some(if r.chance(1, 12) { cat_subject(*r.pick(&H_CAT_IDS), *r.pick(&H_CAT_VERS)) } else { *r.pick(&H_NODE_IDS) });
     let mut cats: [u32; 3] = [0, 0, 0];
     for c in cats.iter_mut() {
         if r.chance(1, 2) {
